@@ -7,7 +7,7 @@ git apply "$patch" || { echo "patch does not apply"; exit 2; }
 cd /verif
 for p in "$@"; do
   ./check "$p" --tier quick > /tmp/seedtest.$$.out 2>&1; rc=$?
-  echo "== $p exit=$rc"; grep -E "^(VIOLATION|KNOWN-FINDING|INFRA)" /tmp/seedtest.$$.out | head -8
+  echo "== $p exit=$rc"; grep -E "^(VIOLATION|INFRA)" /tmp/seedtest.$$.out | head -8; grep -E "^KNOWN-FINDING" /tmp/seedtest.$$.out | cut -c1-160 | head -12
 done
 rm -f /tmp/seedtest.$$.out
 git -C /repo checkout -- . 
